@@ -182,3 +182,11 @@ pub fn overflow_checks_on() -> bool {
     let b: u8 = std::hint::black_box(1);
     catch(|| a + b).is_err()
 }
+
+/// Run one case; a panic that escapes it (a crate call the property requires to be total panicked) becomes a violation
+/// instead of a worker crash.
+pub fn guarded(r: &mut Rep, sig: &str, case: impl Fn() -> String, f: impl FnOnce(&mut Rep)) {
+    if catch(|| f(&mut *r)).is_err() {
+        r.viol(sig, &case(), "a call that must not panic panicked (caught at case level)");
+    }
+}
